@@ -268,4 +268,20 @@ theorem next_valid (y m d : Int) (h : Valid y m d) :
         refine ⟨by omega, by omega, by omega, by omega, by omega, ?_⟩
         omega
 
+/-- For a date of the civil calendar the last test of `_compute_jde` (`if jde < 2299160.5: jde -= b`)
+    changes nothing. -/
+theorem jdnP_valid (y m d : Int) (h : Valid y m d) : jdnP y m d = jdnI y m d := by
+  obtain ⟨_, hm1, hm12, hd1, _, hgap⟩ := h
+  exact jdnP_eq y m d hm1 hm12 hd1 hgap
+
+/-- `compute_jde y m d = jdnI y m d - 1/2` for a civil date (integer day). -/
+theorem compute_jde_int (y m d : Int) (h : Valid y m d) :
+    GenQ.compute_jde y m (PQ.ofInt d) = (jdnI y m d : ℚ) - 1 / 2 := by
+  rw [compute_jde_int_gen, jdnP_valid y m d h]
+
+/-- `compute_jde y m (d + f) = jdnI y m d - 1/2 + f` for a civil date and a day fraction. -/
+theorem compute_jde_frac_valid (y m d : Int) (f : ℚ) (h : Valid y m d) (h0 : 0 ≤ f) (h1 : f < 1) :
+    GenQ.compute_jde y m ((d : ℚ) + f) = (jdnI y m d : ℚ) - 1 / 2 + f := by
+  rw [compute_jde_frac_gen y m d f h0 h1, jdnP_valid y m d h]
+
 end Pymeeus.Refine
